@@ -44,6 +44,13 @@ def activation_cases(tier):
     for s in shapes:
         cases.append(VCase("nn.functional.leaky_relu", {"op": "nn.functional.leaky_relu", "shape": s, "slope": "symbolic in (0,1)"},
                            [Leaf("a", s)], lambda T, K: f.leaky_relu(T["a"], K["slope"]), scalars=[Scalar("slope", (0, 1))], functions=fns))
+    # the slope is a real parameter: negative slopes (slope -1 is |x|), slopes above 1 and 0 are legal too
+    for dom, label in (((-3, 0), "symbolic in (-3,0)"), ((1, 4), "symbolic in (1,4)")):
+        cases.append(VCase("nn.functional.leaky_relu", {"op": "nn.functional.leaky_relu", "shape": (2, 2), "slope": label},
+                           [Leaf("a", (2, 2))], lambda T, K: f.leaky_relu(T["a"], K["slope"]), scalars=[Scalar("slope", dom)], functions=fns))
+    for sl in (-1.0, 0.0, 1.0):
+        cases.append(VCase("nn.LeakyReLU", {"op": "nn.LeakyReLU", "shape": (3,), "slope": sl}, [Leaf("a", (3,))],
+                           lambda T, K, sl=sl: m.LeakyReLU(sl)(T["a"]), functions=("synapgrad.nn.activations.LeakyReLU.forward",)))
     cases.append(VCase("nn.functional.leaky_relu", {"op": "nn.functional.leaky_relu", "shape": (3,), "slope": "default"},
                        [Leaf("a", (3,))], lambda T, K: f.leaky_relu(T["a"]), functions=fns))
     cases.append(VCase("nn.LeakyReLU", {"op": "nn.LeakyReLU", "shape": (3,), "slope": 0.2}, [Leaf("a", (3,))],
